@@ -12,9 +12,9 @@ import manifest_meta as mm
 ids = [json.loads(l)["id"] for l in open(os.path.join(VERIF, "properties.jsonl"))]
 checks = []
 for pid in ids:
-    if pid not in props.PROPS or pid in mm.NOT_APPLICABLE:
+    if pid not in props.PROPS:
         continue
-    meta = mm.CHECKS[pid]
+    meta = props.MANIFEST[pid]
     checks.append(dict(
         property_id=pid,
         quick_cmd="bin/check %s --tier quick" % pid,
@@ -26,7 +26,7 @@ for pid in ids:
         level_note=meta["note"],
         technique=meta["technique"],
     ))
-na = [dict(property_id=p, reason=mm.NOT_APPLICABLE.get(p, "no check built yet in this round (planned, see DESIGN.md §8)"))
+na = [dict(property_id=p, reason=props.NOT_APPLICABLE.get(p, "no check built yet in this round (planned, see DESIGN.md §8)"))
       for p in ids if p not in [c["property_id"] for c in checks]]
 m = dict(
     version=1,
